@@ -56,7 +56,7 @@ int main(int argc, char **argv) {
       for (c = first; c; c = c->next) base += do_cab(d, c, out, base);
     } else {
       for (i = 3; i < argc; i++) {
-        if (!(c = d->open(d, argv[i]))) { printf("open %d st=%d\n", i - 3, d->last_error(d)); return 0; }
+        if (!(c = d->open(d, argv[i]))) { printf("open %d st=%d\n", i - 3, d->last_error(d)); exit(0); }
         printf("open %d st=0\n", i - 3);
         if (last) printf("append st=%d\n", d->append(d, last, c)); else first = c;
         last = c;
@@ -69,7 +69,7 @@ int main(int argc, char **argv) {
   else if (!strcmp(fmt, "chm")) {
     struct mschm_decompressor *d = mspack_create_chm_decompressor(NULL);
     struct mschmd_header *h = d->open(d, argv[3]); struct mschmd_file *fi, **v, r; int n = 0;
-    printf("open st=%d\n", d->last_error(d)); if (!h) return 0;
+    printf("open st=%d\n", d->last_error(d)); if (!h) exit(0);
     printf("chm len=%ld ver=%u ts=%u lang=%u diroff=%ld nchunks=%u chunksize=%u density=%u depth=%u root=%u first=%u last=%u sec0=%ld\n",
            (long) h->length, h->version, h->timestamp, h->language, (long) h->dir_offset, h->num_chunks, h->chunk_size,
            h->density, h->depth, h->index_root, h->first_pmgl, h->last_pmgl, (long) h->sec0.offset);
@@ -92,7 +92,7 @@ int main(int argc, char **argv) {
   else if (!strcmp(fmt, "szdd")) {
     struct msszdd_decompressor *d = mspack_create_szdd_decompressor(NULL);
     struct msszddd_header *h = d->open(d, argv[3]);
-    printf("open st=%d\n", d->last_error(d)); if (!h) return 0;
+    printf("open st=%d\n", d->last_error(d)); if (!h) exit(0);
     printf("szdd fmt=%d len=%ld missing=%02x\n", h->format, (long) h->length, (unsigned char) h->missing_char);
     printf("extract f0 st=%d\n", d->extract(d, h, path(out, 'f', 0)));
     d->close(d, h);
@@ -102,7 +102,7 @@ int main(int argc, char **argv) {
   else if (!strcmp(fmt, "kwaj")) {
     struct mskwaj_decompressor *d = mspack_create_kwaj_decompressor(NULL);
     struct mskwajd_header *h = d->open(d, argv[3]);
-    printf("open st=%d\n", d->last_error(d)); if (!h) return 0;
+    printf("open st=%d\n", d->last_error(d)); if (!h) exit(0);
     printf("kwaj comp=%u dataoff=%ld flags=0x%x len=%ld", h->comp_type, (long) h->data_offset, h->headers, (long) h->length);
     hex("name", h->filename, -1); hex("extra", h->extra, h->extra ? h->extra_length : 0); printf("\n");
     printf("extract f0 st=%d\n", d->extract(d, h, path(out, 'f', 0)));
